@@ -298,6 +298,13 @@ def run_tlc(ctx, family, module, cfg, workers=None, env=None, timeout=600, extra
             if "TEMPORAL" not in r.props:
                 r.props.append("TEMPORAL")
             continue
+        m = re.match(r"Error: Temporal properties (.+) were violated", line)
+        if m:
+            cur = None
+            for name in re.split(r",\s*|\s+and\s+", m.group(1)):
+                if name and name not in r.props:
+                    r.props.append(name)
+            continue
         m = re.match(r"Error: Temporal property (\S+) was violated", line)
         if m:
             cur = None
